@@ -706,10 +706,19 @@ def method_entries(cls):
     return out
 
 
+class NotApplicable(Exception):
+    pass
+
+
 def _args_for(x, n, i, mt):
     from cogent3.core.alignment import ArrayAlignment
     a = ARGS.get(n, [()])[i]
     names = list(x.names)
+    # arguments are positions of the object they are used on: a variant whose positions do not exist there is not a call
+    # the statement speaks about (the two classes are known to refuse / tolerate bad positions differently: C03-K2)
+    need = {("take_positions", 0): 3, ("take_positions", 1): 2, ("__getitem__", 1): 2}.get((n, i), 0)
+    if len(x) < need:
+        raise NotApplicable()
     if not isinstance(a, str):
         return tuple(a), {}
     if a == "@name0":
@@ -759,6 +768,12 @@ METHOD_VIEWS = [
 ]
 
 
+# views that retain no column (explicit stop 0, reversed bounds, start at the end): the result must answer like a new
+# object built from its (empty) rows -- nothing of the parent may show through any method
+EMPTY_VIEWS = [[["sl", 3, 0, None]], [["sl", None, 0, None]], [["sl", 0, 0, None]], [["sl", 5, 2, None]], [["sl", -1, 0, None]],
+               [["rc"], ["sl", 2, 0, None]], [["sl", 1, None, None], ["sl", 2, 0, None]]]
+
+
 def gen_methods(tier, seed):
     from cogent3.core.alignment import Alignment, ArrayAlignment
     thorough = tier == "thorough"
@@ -767,7 +782,7 @@ def gen_methods(tier, seed):
         for e in method_entries(cls):
             ents.setdefault((e[0], e[1], e[2]), []).append(cls.__name__)
     bases = METHOD_BASES if thorough else METHOD_BASES[:1] + METHOD_BASES[3:]
-    views = METHOD_VIEWS if thorough else METHOD_VIEWS[:7]
+    views = (METHOD_VIEWS + EMPTY_VIEWS) if thorough else METHOD_VIEWS[:7] + EMPTY_VIEWS[:2]
     for mt, rows in bases:
         for ops in views:
             for (n, kind, i), classes in sorted(ents.items(), key=lambda kv: (kv[0][0], str(kv[0][2]))):
@@ -799,9 +814,13 @@ def contract_methods(case):
         def run(obj, blind):
             try:
                 return ("ret", norm(_invoke(obj, n, kind, i, st["mt"]), blind))
+            except NotApplicable:
+                return ("n/a",)
             except Exception as e:
                 return ("exc", type(e).__name__)
         a, b = run(x, False), run(y, False)
+        if a == ("n/a",):
+            continue
         if a != b:
             return ("fail", f"method/{cls}/{n}#{i if i is not None else 'p'}/{viewkind}",
                     f"{case}: on the result of the history (rows {st['rows']}) -> {str(a)[:300]}; "
@@ -814,6 +833,8 @@ def contract_methods(case):
         if sa["rows"] == sb["rows"] and a != b:
             # the classes also differ on new objects built from the rows: the history is irrelevant for the key
             where = "" if ya != yb else f"/{viewkind}"
+            if not any(srow for _, srow in sa["rows"]):
+                where += "/zero-columns"
             return ("fail", f"cross/{n}#{i if i is not None else 'p'}{where}",
                     f"{case}: rows {sa['rows']}: Alignment -> {str(a)[:300]}; ArrayAlignment -> {str(b)[:300]}")
     return ("ok", any(a[0][0] == "ret" for a in answers.values()))
